@@ -7,8 +7,9 @@ package middleware
 // Virtual-hosted addressing: when the Host header is "<bucket>.<endpoint>[:port]" with a non-empty bucket, the request
 // handed on is the path-style form of the same request (same bucket, same key); any other host leaves the path alone.
 //@ func MakeVirtualHostBucketAddressingMiddleware$1
+//@ context
 //@ mode effects
-//@ requires endpointSuffix == "." + baseEndpoint && r != nil && r.URL != nil
+//@ requires r != nil && r.URL != nil
 //@ requires !strings.Contains(r.Host, ":")
 //@ effect[C33:same-resource] every next.ServeHTTP(_, $req)
 //@     where old(r.Host) != baseEndpoint && strings.HasSuffix(old(r.Host), "." + baseEndpoint) && len(old(r.Host)) > len(baseEndpoint) + 1 ==>
@@ -21,14 +22,15 @@ package middleware
 // included); the website handler only under "<bucket>.<websiteEndpoint>" with that bucket as first path segment;
 // every other host goes to the fallback (custom-domain) handler.
 //@ func MakeHostnameRoutingHandler$1
+//@ context
 //@ mode effects
-//@ requires apiSuffix == "." + apiEndpoint && strings.HasPrefix(websiteSuffix, ".") && r != nil && r.URL != nil
+//@ requires r != nil && r.URL != nil
 //@ requires apiHandler != websiteHandler && apiHandler != fallbackHandler && websiteHandler != fallbackHandler
 //@ requires !strings.Contains(r.Host, ":")
 //@ effect[C33:api-only-for-api-hosts] every apiHandler.ServeHTTP(_, _)
 //@     where old(r.Host) == apiEndpoint || strings.HasSuffix(old(r.Host), "." + apiEndpoint)
 //@ effect[C33:api-path-untouched] every apiHandler.ServeHTTP(_, $req) where $req.URL.Path == old(r.URL.Path)
 //@ effect[C33:website-only-for-website-hosts] every websiteHandler.ServeHTTP(_, $req)
-//@     where strings.HasSuffix(old(r.Host), websiteSuffix) && len(old(r.Host)) > len(websiteSuffix) &&
-//@         $req.URL.Path == "/" + old(r.Host)[:len(old(r.Host))-len(websiteSuffix)] + old(r.URL.Path)
+//@     where strings.HasSuffix(old(r.Host), "." + websiteEndpoint) && len(old(r.Host)) > len(websiteEndpoint) + 1 &&
+//@         $req.URL.Path == "/" + old(r.Host)[:len(old(r.Host))-len(websiteEndpoint)-1] + old(r.URL.Path)
 //@ effect[C33:fallback-path-untouched] every fallbackHandler.ServeHTTP(_, $req) where $req.URL.Path == old(r.URL.Path)
